@@ -454,7 +454,7 @@ fn random_history(kind: Kind, rng: &mut Rng, pool: &[u64]) -> History {
         }
         let op = match roll {
             0..=2 if rng.chance(1, 2) && now < ce.saturating_sub(1) => Some(Op::UpdStart(rng.range(now + 1, ce))),
-            3..=5 if rng.chance(1, 2) => Some(Op::UpdEnd(if now >= cs { rng.range(cs, ce) } else { cs.saturating_add(rng.below(70)) })),
+            3..=5 if rng.chance(1, 2) => Some(Op::UpdEnd(if now >= cs { if cs <= ce { rng.range(cs, ce) } else { cs } } else { cs.saturating_add(rng.below(70)) })),
             0..=2 => Some(Op::UpdStart(near(rng, &[cs, ce, now, GENESIS]))),
             3..=5 => Some(Op::UpdEnd(near(rng, &[cs, ce, now]))),
             6 => Some(Op::Remove(vec![*rng.pick(&[100u64, 101, 102, 103])])),
